@@ -37,7 +37,7 @@ def prototypes(rng, K, D, complex_):
     return P, 0.0
 
 
-def make_scene(rng, name, tier):
+def make_scene(rng, name, tier, force=None):
     K = int(rng.integers(2, 5))
     D = int(rng.integers(K, 9))
     if name == 'cbmm':
@@ -94,15 +94,22 @@ def make_scene(rng, name, tier):
         data['embedding'] = np.stack(emb)
         protos = {'spatial': np.stack(Ps), 'spectral': np.stack(Pe)}
     blur = float(rng.choice([0.0, 0.1, 0.3, 0.45]))
+    if force:
+        blur = 0.0
     onehot = np.eye(K)[lab].T                                  # (K, N)
     noise = rng.random((K, N))
     noise = noise / noise.sum(0, keepdims=True)
     init = (1 - blur) * onehot + blur * noise
     init = init / init.sum(0, keepdims=True)
+    if blur == 0.0 and (rng.random() < 0.6 or force):
+        # the true partition as a hard mask: boolean or integer typed
+        init = (init > 0.5) if rng.random() < 0.5 else (init > 0.5).astype(np.int64)
     if name in mm.INTEGRATION:
         init = np.broadcast_to(init, (F, K, N)).copy()
     iters = int(rng.integers(1, 21)) if tier == 'thorough' else int(rng.choice([1, 2, 3, 5, 10, 20]))
-    info.update({'blur': blur, 'max_cos': mc, 'iterations': iters, 'sizes': sizes})
+    if force:
+        iters = 1          # the very first M-step from the hard true partition
+    info.update({'blur': blur, 'max_cos': mc, 'iterations': iters, 'sizes': sizes, 'start': str(init.dtype)})
     return data, init, lab, protos, info
 
 
@@ -204,9 +211,9 @@ def evaluate(rp, rng):
     return None, None, coq
 
 
-def make(rng, tier, name=None):
+def make(rng, tier, name=None, force=None):
     name = name or mm.MODELS[int(rng.integers(0, 7))]
-    data, init, lab, protos, info = make_scene(rng, name, tier)
+    data, init, lab, protos, info = make_scene(rng, name, tier, force)
     if name in mm.INTEGRATION:
         # spectral prototypes must be common to all frequencies (one Gaussian / vMF per class over all F*T points)
         F = data['embedding'].shape[0]
@@ -224,7 +231,11 @@ def make(rng, tier, name=None):
 
 def cases(rng, tier):
     n = 56 if tier == 'quick' else 560
-    return [make(rng, tier, mm.MODELS[i % 7]) for i in range(n)]
+    out = [make(rng, tier, mm.MODELS[i % 7]) for i in range(n)]
+    # every model once (thorough: 5 times) from the hard true partition given as a boolean / integer mask, one iteration
+    for i in range(7 if tier == 'quick' else 35):
+        out.append(make(rng, tier, mm.MODELS[i % 7], force=True))
+    return out
 
 
 def search(rng, tier, hints):
